@@ -217,7 +217,7 @@ def main():
             "enable": "no hooks: the checks parse /repo's source; nothing in /repo is instrumented or executed",
             "baseline_off_cmd": "cd /repo && /venv/bin/python -m pytest -ra -q -p no:cacheprovider --timeout=900 "
                                 "--continue-on-collection-errors",
-            "source_commits": commits[::-1],
+            "source_commits": [],
             "add_only": True,
         },
         "engines": [{"name": "kdverif", "path": "kdverif", "serves_properties": sorted(CLAIMS),
@@ -226,7 +226,10 @@ def main():
                                        "run with python3-vt; nothing from /repo is imported or executed"}],
         "checks": checks,
         "notes": "exit codes: 0 = all obligations discharged (KNOWN-FINDING lines allowed), 1 = VIOLATION, 2 = "
-                 "ANALYSIS-ERROR (vanished anchor / instance floor not met / analyser crash) - never a verdict",
+                 "ANALYSIS-ERROR (vanished anchor / instance floor not met / analyser crash) - never a verdict. No hooks: "
+                 "hooks.source_commits is empty. Repairs of genuine defects are the unguarded 'fix:' commits of /repo ("
+                 + ", ".join(commits[::-1]) + "), each recorded as 'fixed' in known_findings.json; the six known C20 crash "
+                 "windows are recorded there as 'known'. Independent seeded changes: /verif/seeded (see DESIGN.md section 6).",
         "not_applicable": [{"property_id": p["id"], "reason": NA_REASON} for p in PROPS if p["id"] not in CLAIMS],
     }
     json.dump(m, open('/verif/MANIFEST.json', 'w'), indent=1)
